@@ -1,6 +1,11 @@
 CONSTANTS
   MaxSteps = 5
   KeepPreset = FALSE
+  FrameExcl = TRUE
+  SerialSuspend = TRUE
+  QuirksFirst = TRUE
+  Quirks = {"none"}
+  Opts = {TRUE, FALSE}
 SPECIFICATION Spec
 INVARIANTS RestoredWhenDown ResumeReestablishes FullScreenWhileRunning
 CHECK_DEADLOCK FALSE
